@@ -21,6 +21,8 @@ def obligations(tier):
     for kind in range(4):
         obs.append(dict(name=f"save_fails[{['unserializable value','chart cannot be serialized','unencodable character (cp1252)','lone surrogate (utf-8)'][kind]}]", func="save_fails", pre=f"kind == {kind}", timeout=T,
                         bounds="backup/output configuration, both formats"))
+    obs.append(dict(name="clash_refused", func="clash_refused", timeout=T,
+                    bounds="backup name equal to the input name (with / without an output name) or to the output name: ValueError before anything is written; both formats, with / without an edit"))
     for ssc in (False, True):
         for op in range(0, 7):
             obs.append(dict(name=f"fs_fault[ssc={ssc},edit={op}]", func="fs_fault", pre=f"ssc == {ssc} and op == {op}", timeout=T,
